@@ -299,6 +299,7 @@ func checkC05(c *Ctx) {
 	if smtpT == nil || process == nil {
 		return
 	}
+	c.c05VerdictsIndependent()
 	// ---- D1
 	policyFns := pkgFuncs(p, "pkg/policy")
 	read := map[string]token.Pos{}
@@ -1070,4 +1071,81 @@ func (c *Ctx) c05OriginContainsFunc(fn *ssa.Function, low *ssa.Call) (why string
 		probs = append(probs, "return at "+p.InstrPos(ret)+" is not the negation of the search's answer")
 	})
 	return strings.Join(probs, "; "), site, true
+}
+
+// c05VerdictsIndependent: "accept" and "store" are two questions with two answers. The two
+// verdict methods of a recipient share no mutable state: a field of Recipient that is written
+// after construction (or whose address is handed to a function) is touched by at most one of
+// them. A memo that both reach makes whichever question is asked first answer the other too — a
+// recipient accepted at RCPT is then stored although its domain is on the discard list.
+func (c *Ctx) c05VerdictsIndependent() {
+	p, r := c.P, c.R
+	rule := "C05/RECIPIENT/verdicts-independent"
+	r.Rule(rule, "Recipient.ShouldAccept and Recipient.ShouldStore touch no common field of Recipient that is written outside the constructor or whose address is passed to a call")
+	rt := p.Named("pkg/policy", "Recipient")
+	acc := p.Method("pkg/policy", "Recipient", "ShouldAccept")
+	sto := p.Method("pkg/policy", "Recipient", "ShouldStore")
+	ctor := p.Method("pkg/policy", "Addressing", "NewRecipient")
+	if rt == nil || acc == nil || sto == nil {
+		return
+	}
+	isRecipPtr := func(t types.Type) bool {
+		pt, ok := t.Underlying().(*types.Pointer)
+		return ok && types.Identical(pt.Elem(), rt)
+	}
+	mutable := map[int]string{}
+	for _, fn := range pkgFuncs(p, "pkg/policy") {
+		if fn == ctor {
+			continue
+		}
+		eng.EachInstr(fn, func(in ssa.Instruction) {
+			fa, ok := in.(*ssa.FieldAddr)
+			if !ok || !isRecipPtr(fa.X.Type()) || fa.Referrers() == nil {
+				return
+			}
+			for _, ref := range *fa.Referrers() {
+				switch x := ref.(type) {
+				case *ssa.Store:
+					if x.Addr == ssa.Value(fa) {
+						mutable[fa.Field] = p.InstrPos(x)
+					}
+				case ssa.CallInstruction:
+					for _, a := range x.Common().Args {
+						if a == ssa.Value(fa) {
+							mutable[fa.Field] = p.InstrPos(x.(ssa.Instruction))
+						}
+					}
+				}
+			}
+		})
+	}
+	touched := func(fn *ssa.Function) map[int]bool {
+		out := map[int]bool{}
+		for g := range p.SyncReach(fn) {
+			if eng.FuncPkgPath(g) != eng.Mod+"/pkg/policy" {
+				continue
+			}
+			eng.EachInstr(g, func(in ssa.Instruction) {
+				if fa, ok := in.(*ssa.FieldAddr); ok && isRecipPtr(fa.X.Type()) {
+					out[fa.Field] = true
+				}
+			})
+		}
+		return out
+	}
+	ta, ts := touched(acc), touched(sto)
+	st := rt.Underlying().(*types.Struct)
+	var shared []string
+	for i := 0; i < st.NumFields(); i++ {
+		if ta[i] && ts[i] {
+			if at, isMut := mutable[i]; isMut {
+				shared = append(shared, st.Field(i).Name()+" (written at "+at+")")
+			}
+		}
+	}
+	if len(shared) > 0 {
+		r.Bad(rule, "Recipient", p.Pos(acc.Pos()), "ShouldAccept and ShouldStore both work on the mutable field(s) %s: the first of the two questions asked for a recipient fixes the answer to the other — with a discard list (or default-store off) a recipient that was accepted at RCPT is stored although it must not be, or the other way round", strings.Join(shared, ", "))
+	} else {
+		r.Ok(rule, "Recipient", p.Pos(acc.Pos()), "the two verdict methods share no field that changes after construction")
+	}
 }
